@@ -45,7 +45,12 @@ def gen_scenario(rng: random.Random) -> Dict[str, Any]:
     s = R.gen_service(rng, type_=rng.choice(["_http._tcp.local.", "_ipp._tcp.local."]), min_ttl=2)
     s.name = rng.choice(["node", "My Printer", "dotted.name", "épsilon"]) + "." + s.type
     s.server = "host-h.local."
-    sc: Dict[str, Any] = {"variant": variant, "svc": s, "layout": rng.choice(["single", "split"]), "self_delay": rng.choice([0.0, 0.0, 1.0, 50.0]),
+    # one registration in five leaves `server` at its default: the host name is then the instance name itself, and a rename
+    # has to move the SRV target and the owner of the address records along with it
+    server_default = rng.random() < 0.2
+    if server_default:
+        s.server = s.name
+    sc: Dict[str, Any] = {"variant": variant, "svc": s, "server_default": server_default, "layout": rng.choice(["single", "split"]), "self_delay": rng.choice([0.0, 0.0, 1.0, 50.0]),
                           "allow": rng.random() < 0.5, "chain": 0, "delta": None}
     # unrelated traffic heard while probing: other instances of the same type, other types, address records (new cache
     # entries wake the probing coroutine early; none of them conflicts with the proposed name)
@@ -105,6 +110,10 @@ def run_scenario(res: Result, seed: int) -> None:
                     await sim.sleep_ms(rng.choice([0, 5000]))
             await sim.sleep_ms(rng.choice([0, 3, 1000]))
             info = R.make_info(s)
+            if sc.get("server_default"):
+                from zeroconf import ServiceInfo
+                info = ServiceInfo(s.type, s.name, s.port, s.weight, s.priority, s.text, None, host_ttl=s.host_ttl, other_ttl=s.other_ttl,
+                                   addresses=list(s.addrs4) + list(s.addrs6))
             out["info"] = info
             P0 = sim.now_ms()
             out["P0"] = P0
@@ -244,7 +253,8 @@ def analyse(res: Result, sim: simnet.Sim, sc: Dict[str, Any], out: Dict[str, Any
                 viol("c09.announce", "probe_spacing", "probes for %s at %r (gaps %r, expected 175)" % (final_name, [round(t - P0, 1) for t in times], gaps))
         last_probe = max(times) if times else P0
         # announcements: responses whose answer section carries PTR+SRV+TXT of the final name
-        svc_final = Svc(s.type, final_name, s.server, s.port, s.text, s.addrs4, s.addrs6, s.host_ttl, s.other_ttl, s.priority, s.weight)
+        svc_final = Svc(s.type, final_name, final_name if sc.get("server_default") else s.server, s.port, s.text, s.addrs4, s.addrs6, s.host_ttl, s.other_ttl,
+                        s.priority, s.weight)
         complete = set(svc_final.all_records())
         ann = []
         for e, m in responses:
@@ -281,7 +291,9 @@ def analyse(res: Result, sim: simnet.Sim, sc: Dict[str, Any], out: Dict[str, Any
         for e, m in responses:
             for r in m.answers + m.additionals:
                 ident = R.ident_of_wire(r)
-                if r.ttl > 0 and ((ident[0] == "PTR" and ident[2][0] in bad_names) or (ident[0] in ("SRV", "TXT") and ident[1] in bad_names)):
+                if r.ttl > 0 and ((ident[0] == "PTR" and ident[2][0] in bad_names) or (ident[0] in ("SRV", "TXT") and ident[1] in bad_names) or
+                                  (sc.get("server_default") and ((ident[0] in ("A", "AAAA", "NSEC") and ident[1] in bad_names) or
+                                                                 (ident[0] == "SRV" and ident[2][3] in bad_names)))):
                     viol("c09.conflict", "conflicting_name_sent", "host sent %r (ttl %d) for a name owned by someone else at +%.0f ms" % (ident, r.ttl, e["t"] - P0), window=window)
     fam = ("dual" if s.addrs4 and s.addrs6 else ("v4" if s.addrs4 else "v6")) + ("-multi" if len(s.addrs4) + len(s.addrs6) > 2 else "")
     res.cls(sc["variant"], window, "rename" if sc["allow"] else "strict", "chain=%d" % sc["chain"], fam, sc["layout"], result, "selfdelay=%g" % sc["self_delay"],
